@@ -1,5 +1,6 @@
 (** C04 — Authenticators fall back only on missing credentials or explicit
-    opt-in.  Property theorems only; proofs are in C04/Proofs.v.
+    opt-in.  Property theorems only; proofs are in C04/Proofs.v, C04/Checker.v,
+    C04/FactoryProofs.v.
 
     Chain level: [execute] is compositeSubjectCreator.Execute over authenticators
     abstracted to (outcome on the request, IsFallbackOnErrorAllowed()); all
@@ -67,13 +68,18 @@ Theorem C04_no_credentials_iff_none_presented : forall t k h q,
 Proof. exact classify_sound. Qed.
 Print Assumptions C04_no_credentials_iff_none_presented.
 
+(** (lemma, not counted among the property theorems: immediate from the two defining
+    equations of [classify] for anonymous and unauthorized) *)
 Theorem C04_kindless_never_no_credentials : forall t h q,
   kind_of t = None -> classify t h q <> Failed ENoCreds.
 Proof. exact classify_kindless. Qed.
 Print Assumptions C04_kindless_never_no_credentials.
 
-(** for all fallback settings: IsFallbackOnErrorAllowed() is true only for a step
-    that opts in (rule-level setting true, or none and the prototype's true) *)
+(** (lemma, not counted: [opts_in] is the case split of [configured_fb] written as an
+    inductive; what it is worth is the sampled agreement of that definition with the
+    flags observed on the real objects.)  For all fallback settings:
+    IsFallbackOnErrorAllowed() is true only for a step that opts in (rule-level
+    setting true, or none and the prototype's true) *)
 Theorem C04_fallback_only_if_opted_in : forall a, fallback_allowed a = true -> opts_in a.
 Proof. exact fallback_only_if_opted_in. Qed.
 Print Assumptions C04_fallback_only_if_opted_in.
@@ -88,10 +94,15 @@ Theorem C04_typed_later_only_if : forall q hits ca n r,
 Proof. exact typed_later_only_if. Qed.
 Print Assumptions C04_typed_later_only_if.
 
-(** ... the subject is that of the first authenticator that accepts ... *)
+(** ... the subject is that of the first authenticator that accepts: the accepting
+    step is the last consulted one, and no step at an earlier position of the chain as
+    the composite sees it ([to_chain]: every position with its own cache lookup)
+    accepted ... *)
 Theorem C04_typed_first_success : forall q hits ca n s,
   authenticate ca hits q = (n, RSubject s) ->
-  exists j a h, n = S j /\ nth_error ca j = Some a /\ classify (a_type a) h q = Accepted s.
+  exists j a h, n = S j /\ nth_error ca j = Some a /\ classify (a_type a) h q = Accepted s /\
+    nth_error (to_chain q ca hits) j = Some {| c_out := classify (a_type a) h q; c_fb := fallback_allowed a |} /\
+    forall i b, i < j -> nth_error (to_chain q ca hits) i = Some b -> forall s', c_out b <> Accepted s'.
 Proof. exact typed_first_success. Qed.
 Print Assumptions C04_typed_first_success.
 
@@ -152,7 +163,9 @@ Print Assumptions C04_step_flag_alone.
 (* ------------------------------------------------------------------ the predicate the correspondence run applies *)
 
 (** an observation of the implementation that the executable predicate [prop_chain]
-    (C04/Checker.v; it is what `v_prop` of the evaluator computes) accepts is a run the
+    (C04/Checker.v; the composite part of what `v_prop` of the evaluator computes:
+    `prop_step` = `prop_chain` && `e2e_ok`, the latter — the service answer agrees with
+    the composite's — being covered by no theorem) accepts is a run the
     specification allows: consulted = the first of the configured chain in order; the
     observed outcomes, flags and answer satisfy [spec] whatever the unconsulted
     authenticators would have done; "no credentials" only where none of the kind were
@@ -175,6 +188,25 @@ Theorem C04_model_passes_checked_predicate : forall q ca hits,
   prop_chain q 0 ca (fst (observe q 0 RNil ca hits)) (snd (observe q 0 RNil ca hits)) RNil = true.
 Proof. intros q ca hits. split; [apply observe_is_authenticate | apply model_passes_predicate]. Qed.
 Print Assumptions C04_model_passes_checked_predicate.
+
+(** non-vacuity of the history theorems: one generic prototype with the flag set and
+    one anonymous prototype; rule 0 switches the flag off on the rule level, rule 1
+    only sets other things.  Both are created; rule 0's step answers false, rule 1's
+    true, and the two anonymous steps (no config) are the one prototype object *)
+Example C04_history_nonvacuous :
+  let t := TGeneric (RFixed SUp) false in
+  let protos := [ {| o_type := t; o_flag := true |}; {| o_type := TAnonymous "anon"; o_flag := false |} ] in
+  let st p c := {| sc_proto := p; sc_config := c |} in
+  let rules := [ [st 0 (Some (t, Some false)); st 1 None]; [st 0 (Some (t, None)); st 1 None] ] in
+  exists h a0 a1,
+    load protos rules = Some (h, [[a0; 1]; [a1; 1]]) /\
+    option_map obj_fallback (nth_error h a0) = Some false /\
+    option_map obj_fallback (nth_error h a1) = Some true /\
+    Forall (Forall (fun s => sc_proto s < length protos)) rules.
+Proof.
+  eexists _, _, _. split; [vm_compute; reflexivity|]. split; [reflexivity|]. split; [reflexivity|].
+  repeat constructor.
+Qed.
 
 (** non-vacuity: wrong basic-auth password, no opt-in, anonymous behind it; the
     same with the opt-in on the rule level *)
